@@ -26,12 +26,13 @@ package scenario
 //@   modifies family(s.victims[""].Tasks[*])
 //@   loop 1
 //@     invariant s.victims == old(s.victims)
-//@     invariant forall k in s.victims :: !(k in visited) ==> tasksKnown(s, s.victims[k])
+//@     invariant forall k common_info.PodGroupID, i int :: k in s.victims && !(k in visited) && 0 <= i && i < len(s.victims[k].Tasks) ==> s.victims[k].Tasks[i] == old(s.victims[k].Tasks[i])
 //@   loop 2
 //@     invariant 0 - 1 <= rangeindex && rangeindex < len(victim.Tasks)
-//@     invariant forall i int :: rangeindex < i && i < len(victim.Tasks) ==> victim.Tasks[i] != nil && victim.Tasks[i].Job in pgis(s)
+//@     invariant forall k common_info.PodGroupID, i int :: k in s.victims && s.victims[k] == victim && rangeindex < i && i < len(victim.Tasks) ==> victim.Tasks[i] == old(s.victims[k].Tasks[i])
+//@     invariant exists k in s.victims :: s.victims[k] == victim
 //@     invariant forall k in s.victims :: s.victims[k] != victim ==> disjoint(s.victims[k].Tasks, victim.Tasks)
-//@     invariant forall k in s.victims :: s.victims[k] != victim && !(k in visited) ==> tasksKnown(s, s.victims[k])
+//@     invariant forall k common_info.PodGroupID, i int :: k in s.victims && s.victims[k] != victim && !(k in visited) && 0 <= i && i < len(s.victims[k].Tasks) ==> s.victims[k].Tasks[i] == old(s.victims[k].Tasks[i])
 //@     decreases len(victim.Tasks) - rangeindex
 //@   ensures [sameMap] result == s.victims && s.victims == old(s.victims)
 //@ end
